@@ -101,6 +101,35 @@ struct Got {
 }
 
 fn run_lpg(c: &LpgCase) -> CaseResult {
+    run_lpg_with(c, &c.schedule)
+}
+
+/// Two threads, every schedule: all 2^depth choice sequences at the first `depth` yield points are run
+/// (beyond them the running thread continues), so the interleavings of the two programs at the instrumented
+/// granularity are enumerated completely for programs with at most `depth` yield points.
+fn run_lpg_all_schedules(c: &LpgCase, depth: u32) -> CaseResult {
+    let mut last = None;
+    let mut nontrivial = false;
+    let mut known: BTreeSet<String> = BTreeSet::new();
+    for bits in 0u32..(1u32 << depth) {
+        let schedule: Vec<u8> = (0..depth).map(|i| ((bits >> i) & 1) as u8).collect();
+        match run_lpg_with(c, &schedule) {
+            Ok(okc) => {
+                nontrivial |= okc.nontrivial;
+                known.extend(okc.known.iter().cloned());
+                last = Some(okc);
+            }
+            Err(f) => return Err(Failure { signature: f.signature, what: format!("schedule {schedule:?}: {}", f.what) }),
+        }
+    }
+    let mut okc = last.expect("at least one schedule");
+    okc.nontrivial = nontrivial;
+    okc.class = format!("all-{}-schedules", 1u32 << depth);
+    okc.known = known.into_iter().collect();
+    Ok(okc)
+}
+
+fn run_lpg_with(c: &LpgCase, schedule: &[u8]) -> CaseResult {
     let store = Arc::new(if c.backward {
         LpgStore::new()
     } else {
@@ -148,7 +177,7 @@ fn run_lpg(c: &LpgCase) -> CaseResult {
             }) as Body<Result<Vec<Got>, Failure>>
         })
         .collect();
-    let (results, info) = run_controlled(&c.schedule, bodies);
+    let (results, info) = run_controlled(schedule, bodies);
     if info.stalled {
         return fail("c20/lpg/stall", format!("no progress for 120 s; trace {:?}", info.trace));
     }
@@ -808,6 +837,9 @@ pub fn run(r: &mut Run) {
     let thorough = r.is_thorough();
     let (mt, mo) = if thorough { (3, 3) } else { (3, 2) };
     r.subcheck("lpg", r.cases(4000, 300_000), move || lpg_strategy(mt, mo), run_lpg);
+    // exhaustive over schedules: two threads, 1-2 ops each, all 2^depth choice sequences
+    let depth = if thorough { 10 } else { 6 };
+    r.subcheck("lpg_all_schedules", r.cases(150, 400), move || lpg_strategy(2, 2), move |c: &LpgCase| run_lpg_all_schedules(c, depth));
     r.subcheck("rdf", r.cases(6000, 300_000), move || rdf_strategy(3), run_rdf);
     r.subcheck("buffer", r.cases(6000, 300_000), buf_strategy, run_buffer);
     r.subcheck("free", r.cases(6000, 200_000), free_strategy, run_free);
